@@ -1,4 +1,5 @@
 import CstModel.Props.C03
+import CstModel.Proofs.Walk
 open Cst.C03
 #print axioms parent_child
 #print axioms ancestorsOf_spec
@@ -11,3 +12,6 @@ open Cst.C03
 #print axioms elem_iter_size_agrees
 #print axioms node_iter_size_agrees
 #print axioms preorder_spec
+#print axioms Cst.walkNextT_sim
+#print axioms Cst.walk_sim
+#print axioms Cst.preorderWithTokens_spec
